@@ -19,39 +19,48 @@ import (
 
 // wgModels calls f for every model of the graph alphabet that belongs to this worker.
 func wgModels(ctx *core.Ctx, f func(i int, tm gen.Tagged) bool) {
-	sp := gen.NewGraphSpace(ctx.Thorough())
-	n := sp.Size()
-	for i := 0; i < n; i++ {
-		if !ctx.Mine(i) {
-			continue
-		}
-		if ctx.Expired() {
-			ctx.Cap(fmt.Sprintf("wall-clock cap: two-relation models %d of %d visited", i, n))
-			return
-		}
-		if !f(i, sp.At(i)) {
-			return
-		}
-	}
+	// special families first (they carry the vacuity guards), then the two-relation space simplest first
 	extra := gen.TTUDefectModels()
 	extra = append(extra, gen.InterlockModels()...)
 	nSpecial := len(extra)
 	extra = append(extra, gen.ThreeRelModels(ctx.Thorough())...)
 	extra = append(extra, gen.NestedModels()...)
 	for j, tm := range extra {
-		if !ctx.Mine(n + j) {
+		if !ctx.Mine(j) {
 			continue
 		}
 		if !ctx.Thorough() && j >= nSpecial && j%4 != 0 {
 			continue // quick: every 4th of the three-relation and nested families
 		}
 		if ctx.Expired() {
-			ctx.Cap("wall-clock cap inside the three-relation / nested families")
+			ctx.Cap("wall-clock cap inside the special / three-relation / nested families")
 			return
 		}
-		if !f(n+j, tm) {
+		if !f(j, tm) {
 			return
 		}
+	}
+	base := len(extra)
+	spaces := []*gen.GraphSpace{gen.NewGraphSpace(false)}
+	if ctx.Thorough() {
+		// thorough: the quick alphabet under the deeper budgets first, then the full alphabet as far as the cap allows
+		spaces = append(spaces, gen.NewGraphSpace(true))
+	}
+	for si, sp := range spaces {
+		n := sp.Size()
+		for i := 0; i < n; i++ {
+			if !ctx.Mine(base + i) {
+				continue
+			}
+			if ctx.Expired() {
+				ctx.Cap(fmt.Sprintf("wall-clock cap: two-relation models of alphabet %d: %d of %d visited", si, i, n))
+				return
+			}
+			if !f(base+i, sp.At(i)) {
+				return
+			}
+		}
+		base += n
 	}
 }
 
